@@ -40,6 +40,8 @@ func main() {
 		cmdMerge(os.Args[2:])
 	case "determinism":
 		cmdDeterminism(os.Args[2:])
+	case "minimise-race":
+		cmdMinimiseRace(os.Args[2:])
 	default:
 		fmt.Fprintln(os.Stderr, "unknown command", os.Args[1])
 		os.Exit(2)
@@ -433,4 +435,73 @@ func cmdDeterminism(args []string) {
 	if bad > 0 {
 		os.Exit(2)
 	}
+}
+
+// cmdMinimiseRace shrinks the replay file of a controlled-race-lane report.
+// The race detector halts the process at the first report, so every candidate
+// is judged in a child process: exit code 66 (GORACE exitcode) = still races.
+func cmdMinimiseRace(args []string) {
+	fs := flag.NewFlagSet("minimise-race", flag.ExitOnError)
+	file := fs.String("file", "", "replay file (rewritten in place)")
+	budget := fs.Float64("budget", 60, "seconds")
+	fs.StringVar(&treeSHA, "tree", "", "tree fingerprint")
+	fs.StringVar(&fixtureDir, "fixtures", fixtureDir, "fixtures")
+	fs.Parse(args)
+	b, err := os.ReadFile(*file)
+	if err != nil {
+		os.Exit(2)
+	}
+	var rf ReplayFile
+	if json.Unmarshal(b, &rf) != nil || rf.Scenario.Lane != "racesim" {
+		return
+	}
+	tmp := *file + ".cand"
+	defer os.Remove(tmp)
+	races := func(c *ReplayFile) bool {
+		if writeJSON(tmp, c) != nil {
+			return false
+		}
+		ctx, cancel := context.WithTimeout(context.Background(), 60*time.Second)
+		defer cancel()
+		cmd := exec.CommandContext(ctx, os.Args[0], "replay", "-file", tmp, "-tries", "1", "-tree", treeSHA, "-fixtures", fixtureDir)
+		cmd.Env = append(os.Environ(), "GORACE=halt_on_error=1 exitcode=66")
+		err := cmd.Run()
+		if ee, ok := err.(*exec.ExitError); ok {
+			return ee.ExitCode() == 66
+		}
+		return false
+	}
+	start := time.Now()
+	if !races(&rf) {
+		fmt.Fprintln(os.Stderr, "minimise-race: the report does not reproduce from the scenario alone; file left as recorded")
+		return
+	}
+	rf.FreshConfirmed = true
+	best := rf
+	execs, accepted := 1, 0
+	for progress := true; progress && time.Since(start).Seconds() < *budget; {
+		progress = false
+		for _, red := range reducersFor(&best.Scenario) {
+			for _, mut := range red(&best.Scenario) {
+				if time.Since(start).Seconds() > *budget {
+					break
+				}
+				c := best
+				c.Scenario = *best.Scenario.clone()
+				if !mut(&c.Scenario) {
+					continue
+				}
+				execs++
+				if races(&c) {
+					best = c
+					accepted++
+					progress = true
+					break
+				}
+			}
+		}
+	}
+	best.Minimised = accepted > 0
+	best.MinInfo = fmt.Sprintf("%d child executions under the race detector, %d reductions accepted, %.1fs", execs, accepted, time.Since(start).Seconds())
+	writeJSON(*file, &best)
 }
